@@ -219,11 +219,15 @@ class Spec:
         return out
 
 
+ROW_KEYS = ["match", "case", "type", "_", "self", "print", "x1", "a_b", "row2_", "Select", "_v"]
+
+
 class G:
     def __init__(self, r, spec):
         self.r = r
         self.s = spec
         self.interesting = False
+        self.refuse = False   # a nested Where was given a filter that is not a boolean: the whole query must be refused
         self.outer = []       # parameters of enclosing immediately called lambdas: (name, type, operator-lambda level)
         self.oplevel = 0      # how many operator lambdas enclose the expression being generated
         self.fresh = 0
@@ -287,7 +291,7 @@ class G:
     def coll(self, v, t, el, d):
         r = self.r
         self.interesting = True
-        k = r.choice(["First", "sub", "Count", "len", "Select", "Where", "SelectMany", "MyFirst", "MyCount"] if d < 3 else
+        k = r.choice(["First", "sub", "Count", "len", "Select", "Where", "SelectMany", "MyFirst", "MyCount", "Row"] if d < 3 else
                      ["First", "sub", "Count", "len", "MyFirst"])
         if k == "First":
             return call(A(v, "First"), []), el
@@ -304,8 +308,25 @@ class G:
             b, bt = self.inner(nv, el, d)
             b, bt = self.scalarise(b, bt)
             return tc.op_call(r, v, "Select", lam(nv, b)), ("it", bt)
+        if k == "Row":
+            # a dictionary row between two operators: the second lambda's parameter is a record whose fields - whatever
+            # legal identifier names them, soft keywords included - keep the types of the values
+            key = r.choice(ROW_KEYS)
+            rows = tc.op_call(r, v, "Select", lam(nv, gen.dct([(C(key), N(nv)), (C("o"), C(1))])))
+            rv = r.choice(["r", "row", nv])
+            acc = A(N(rv), key) if r.random() < 0.6 else gen.sub(N(rv), C(key))
+            self.oplevel += 1
+            try:
+                b, bt = self.value(acc, el, d + 1)
+            finally:
+                self.oplevel -= 1
+            return tc.op_call(r, rows, "Select", lam(rv, b)), ("it", bt)
         if k == "Where":
             b, bt = self.inner(nv, el, d)
+            if bt != ("p", "bool") and r.random() < 0.08:
+                # a filter that is not a boolean is refused at any depth, not only on the stream itself
+                self.refuse = True
+                return tc.op_call(r, v, "Where", lam(nv, b), 0.5), ("it", el)
             return tc.op_call(r, v, "Where", lam(nv, self.boolean(b, bt)), 0.5), ("it", el)
         # SelectMany: the body must be iterable
         if self.s.elem(el) is not None and r.random() < 0.5:
@@ -382,6 +403,8 @@ def run(ctx):
             else:
                 b = g.boolean(b, bt) if ctx.rng.random() < 0.8 else b
                 want = ("c", "Ev", []) if isinstance(b, (ast.Compare, ast.BoolOp, ast.UnaryOp)) or bt == ("p", "bool") else "refuse"
+            if g.refuse:
+                want = "refuse"
             cases.append((op, lam(rv, b), want, g.interesting))
         answers = ctx.driver.call("op", [tc.model_requests(w, op, item_sx, q) for op, q, _, _ in cases])
         for (op, q, want, interesting), ans in zip(cases, answers):
